@@ -25,6 +25,13 @@ def observe_case(case):
     terms = [MinimalTerm.create_minimal_term(t, 'n', [], False) for t in g]
     hpo = create_minimal_ontology(g, terms, 'v1')
     ic = SimpleAnnotationIcContainer({TermId.from_curie(k): v / SCALE for k, v in case['ic']}, metadata={'m': 'x'})
+    if len(case['edges']) % 2 == 0:
+        # the ontology has been used before: module-level helpers called on it with BOTH include_source values, in both orders
+        import hpotk.algorithm as alg
+        for k, t in enumerate(g):
+            for inc in ((False, True) if k % 2 == 0 else (True, False)):
+                set(alg.get_ancestors(hpo, t, include_source=inc))
+                set(alg.get_descendants(hpo, t, include_source=inc))
     try:
         sim = precalculate_ic_mica_for_hpo_concept_pairs(ic, hpo)
     except Exception as e:
